@@ -22,6 +22,20 @@ var terminators = map[string]bool{
 }
 
 func (f *Frame) execCall(instr ssa.Instruction, c *ssa.CallCommon, st *State) *V {
+	r := f.execCallInner(instr, c, st)
+	name := ""
+	if sc := c.StaticCallee(); sc != nil {
+		name = sc.Name()
+	} else if c.IsInvoke() {
+		name = c.Method.Name()
+	}
+	if name != "" {
+		f.anchorsAfterCall(name, st)
+	}
+	return r
+}
+
+func (f *Frame) execCallInner(instr ssa.Instruction, c *ssa.CallCommon, st *State) *V {
 	u := f.u
 	// builtins
 	if b, ok := c.Value.(*ssa.Builtin); ok {
@@ -1012,7 +1026,40 @@ func (f *Frame) anchorsAtCall(instr ssa.Instruction, calleeName string, st *Stat
 			continue
 		}
 		g := ctx.evalGoal(a.E)
-		ob := u.oblige(st, "assert", f.anchor+want+"/"+label, g, "at "+want+": "+a.Src)
-		_ = ob
+		u.oblige(st, "assert-noassume", f.anchor+want+"/"+label, g, "at "+want+": "+a.Src)
+		u.assume(st, ctx.evalBool(a.E))
+	}
+}
+
+// anchorsAfterCall handles `assert@after <name>#<n> : expr` (and assume@after):
+// evaluated right after the n-th call of a callee with that name returned.
+func (f *Frame) anchorsAfterCall(calleeName string, st *State) {
+	if !f.top || f.contract == nil || len(f.contract.Asserts) == 0 {
+		return
+	}
+	u := f.u
+	if f.afterOrd == nil {
+		f.afterOrd = map[string]int{}
+	}
+	n := f.afterOrd[calleeName]
+	f.afterOrd[calleeName] = n + 1
+	for _, a := range f.contract.Asserts {
+		want := fmt.Sprintf("after %s#%d", calleeName, n)
+		if a.Anchor != want && a.Anchor != "after "+calleeName+"#*" {
+			continue
+		}
+		f.usedAnchors[a.Anchor] = true
+		ctx := f.specCtxAt(st, f.curBlock, f.curIdx+1)
+		label := a.Label
+		if label == "" {
+			label = "0"
+		}
+		if a.Assume {
+			u.assume(st, ctx.evalBool(a.E))
+			u.note("assumed at " + ShortName(f.fn) + " " + want + ": " + a.Src)
+			continue
+		}
+		u.oblige(st, "assert-noassume", f.anchor+want+"/"+label, ctx.evalGoal(a.E), "at "+want+": "+a.Src)
+		u.assume(st, ctx.evalBool(a.E))
 	}
 }
